@@ -104,6 +104,33 @@ func runC16(c0 *Ctx) {
 		}
 	})
 
+	c0.rule("C16.O1", "least recently used goes first: every successful Put (nil error) and every successful Get has put the key's element at the front of the recency list on its way (List.PushFront / List.MoveToFront), also when Put replaces a resident value; evict only ever removes the element it got from List.Back()", func() {
+		c := c0.onCache()
+		pushFront := c.method("cache/lru", "List", "PushFront")
+		toFront := c.method("cache/lru", "List", "MoveToFront")
+		back := c.method("cache/lru", "List", "Back")
+		remove := c.method("cache/lru", "List", "Remove")
+		isFront := callTo(pushFront, toFront)
+		for _, name := range []string{"(*cache/lru.Cache[K, V]).Put", "(*cache/lru.Cache[K, V]).Get"} {
+			fn := c.fn(name)
+			isOK := func(in ssa.Instruction) bool {
+				r, ok := in.(*ssa.Return)
+				return ok && errSuccess(r)
+			}
+			c.mustPrecede(fn, isFront, "ll.PushFront / ll.MoveToFront", isOK, "a successful return", 1)
+		}
+		ev := c.fn("(*cache/lru.Cache[K, V]).evict")
+		rm := find(ev, callTo(remove))
+		okv := len(rm) >= 1
+		for _, in := range rm {
+			a := argsOf(in)
+			if len(a) != 1 || !ir.DerivesFrom(a[0], valIsCallTo(back)) {
+				okv = false
+			}
+		}
+		c.verdict(okv, c.nm(ev)+" | evicts from the back of the recency list", c.P.Pos(ev.Pos()), fmt.Sprintf("%d Remove(ll.Back()) site(s)", len(rm)), "evict removes an element that is not the one returned by ll.Back() (or removes nothing)", c.ats(rm)...)
+	})
+
 	c0.rule("C16.G1", "capacity: Put adds the new entry's size and links it only after evict(vs)=nil and with vs <= capacity; evict returns success only once capacity-size >= needed and subtracts each evicted element's own Size()", func() {
 		c := c0.onCache()
 		put := c.fn("(*cache/lru.Cache[K, V]).Put")
